@@ -538,6 +538,55 @@ impl B {
         }
     }
 
+    /// Finders with needles above the vector cap (Two-Way + prefilter), shared
+    /// by all threads and searched at the same time over haystacks that are
+    /// dense in false candidates of the rare-byte pair (two-letter alphabet:
+    /// a candidate every ~4 bytes), so that the prefilter reaches the
+    /// "enough samples, not effective: give up" decision in the middle of
+    /// those searches. Whatever the search keeps about the prefilter's
+    /// effectiveness must stay per call; if it is shared, the give-up of one
+    /// thread lands between another thread's reads of it.
+    fn scn_shared_finder_hostile(&mut self, max_hay: usize, finders: usize, searches: usize) {
+        if self.full() || self.threads.len() < 2 {
+            return;
+        }
+        let n = self.threads.len();
+        let a = b'a' + self.rng.below(20) as u8;
+        let alpha = [a, a + 1 + self.rng.below(4) as u8];
+        for _ in 0..finders {
+            if self.full() {
+                break;
+            }
+            let nlen = self.rng.range(33, 48);
+            let needle_b = inputs::word(&mut self.rng, nlen, &alpha);
+            let hlen = self.rng.range((max_hay * 3 / 4).max(nlen + 8), max_hay.max(nlen + 9));
+            let mut hay_b = inputs::word(&mut self.rng, hlen, &alpha);
+            if self.rng.chance(1, 2) {
+                // a real match near the end, behind the candidate-dense part
+                let at = hlen - nlen - self.rng.range(0, 4);
+                hay_b[at..at + nlen].copy_from_slice(&needle_b);
+            }
+            let needle = self.buf(needle_b, None);
+            let hay = self.buf(hay_b, None);
+            let cfg = FinderCfg { prefilter: true, ranker: if self.rng.chance(3, 4) { Ranker::Default } else { self.ranker() } };
+            let f = self.slot(0);
+            self.push(0, Op::FinderNew { rev: false, needle, cfg, dst: f });
+            let mut holders = vec![(0usize, f)];
+            for to in 1..n {
+                self.push(0, Op::Share { s: f, to });
+                let rd = self.slot(to);
+                self.push(to, Op::Recv { from: 0, dst: rd });
+                holders.push((to, rd));
+            }
+            for &(th, s) in &holders {
+                for _ in 0..searches {
+                    self.push(th, Op::FinderFind { f: s, hay, via_ref: false });
+                }
+                self.push(th, Op::Drop { s });
+            }
+        }
+    }
+
     /// One finder shared before its first use: one thread makes the first
     /// search while the others copy it (`as_ref`, `clone`, an iterator) and
     /// search through the copy. Whatever a finder builds lazily must be
@@ -1185,10 +1234,14 @@ pub fn generate(profile: Profile, verif_seed: u64, index: u64, tgt: Target) -> F
                     b.scn_byte_oneshots(t, 1, true, false, 40);
                 }
             }
-            match b.rng.below(8) {
+            match b.rng.below(10) {
                 0 | 1 => b.scn_shared_finder_race(40, 40, 2),
                 2 | 3 => b.scn_copy_vs_first_use(),
                 4 | 5 | 6 => b.scn_concurrent_construction(),
+                7 | 8 => {
+                    let k = b.rng.range(1, 2);
+                    b.scn_shared_finder_hostile(150, k, 2)
+                }
                 _ => {}
             }
             env.dispatch = Dispatch::Fresh;
@@ -1221,7 +1274,12 @@ pub fn generate(profile: Profile, verif_seed: u64, index: u64, tgt: Target) -> F
             for _ in 0..scen {
                 let t = b.rng.usize_below(nthreads.saturating_sub(1).max(1));
                 let (mh, mn) = (b.max_hay(400), 80);
-                match b.rng.below(9) {
+                match b.rng.below(10) {
+                    9 => {
+                        let k = b.rng.range(1, 3);
+                        let mh = b.rng.range(120, 400);
+                        b.scn_shared_finder_hostile(mh, k, 2)
+                    }
                     7 => b.scn_copy_vs_first_use(),
                     8 => b.scn_concurrent_construction(),
                     0 => b.scn_byte_iter(t, false, true, mh),
